@@ -1693,6 +1693,17 @@ class K(Dummy):
         mna._D[m1, m2] += -ZM
         mna._D[m2, m1] += -ZM
 
+        if mna.kind == 'ivp':
+            # The initial current of each inductor also contributes
+            # flux to the inductor it is coupled with.
+            M = K.sympy * sym.sqrt(ZL1 * ZL2 / ssym**2)
+            cpt1 = mna.cct.elements[L1].cpt
+            cpt2 = mna.cct.elements[L2].cpt
+            if cpt2.has_ic:
+                mna._Es[m1] += -M * cpt2.i0.sympy
+            if cpt1.has_ic:
+                mna._Es[m2] += -M * cpt1.i0.sympy
+
 
 class L(RLC):
 
